@@ -244,7 +244,14 @@ pub fn replay(shapes: &[Value], seed: u64, reps: usize, rep: &mut Report, trace:
                 names.push(name.clone());
                 // the id the checker itself expects (so that duplicate handling, years and protocols interact), or a wrong one
                 let id = single("zz", &name).ok().and_then(|r| r.last().cloned()).unwrap_or_else(|| "zz".into());
-                (if rng.gen_bool(0.7) { id } else { "other".into() }, name)
+                // (wrong ids of several kinds: one game can fail several rules at once - more failures than games)
+                let id = match rng.gen_range(0 .. 10) {
+                    0 ..= 5 => id,
+                    6 | 7 => "other".into(),
+                    8 => "OtherID".into(),
+                    _ => id.to_uppercase(),
+                };
+                (id, name)
             })
             .collect();
         rep.evaluations += 1;
